@@ -143,6 +143,16 @@ def catalogue():
     return prop + taut
 
 
+HEAVY = {'and_assoc', 'or_assoc', 'and_comm', 'or_comm', 'equiv_refl', 'equiv_sym', 'equiv_transitivity', 'and_cong', 'or_cong',
+         'or_idem', 'reduce_or_duplicates_at_front', 'and_assoc_r', 'and_assoc_l', 'iand', 'sylc', 'ian', 'imp_to_and', 'resolution_step',
+         'imim_nnr', 'imim_nnl', 'imim_and', 'imim_and_l', 'imim_and_r', 'and_intro'}
+
+
+def light_catalogue():
+    """Entries whose proofs stay small (hundreds of instructions) - for checks that run each expression many times."""
+    return [e for e in catalogue() if e.name not in HEAVY]
+
+
 # ---------------------------------------------------------------------------
 # schema instantiation and matching on sugared / reference trees
 
